@@ -100,7 +100,9 @@ def register_lexer(reg):
                      # line/column are those of start_pos in the whole buffer; end_line/end_column those of end_pos
                      'result.line == %s' % LINE('result.start_pos'), 'result.column == %s' % COL('result.start_pos'),
                      'result.end_line == %s' % LINE('result.end_pos'), 'result.end_column == %s' % COL('result.end_pos'),
-                     'lex_state.last_token is result', 'result.type not in self.ignore_types or True'],
+                     'lex_state.last_token is result',
+                     # a token of an ignored type is never returned - also when a callback (keyword detection) retyped it
+                     'result.type not in self.ignore_types'],
                  raises={'EOFError': ['%s.char_pos == %s.text.end' % (C, S)] + textmodel.INV(C, TXT),
                          # raised at the first offset where no terminal matches, with exact coordinates
                          'UnexpectedCharacters': ['exc.pos_in_stream == %s.char_pos' % C, '%s.char_pos < %s.text.end' % (C, S),
